@@ -60,7 +60,7 @@ def strategy(tier):
       'initial': st.lists(st.integers(0, 5), max_size=4, unique=True),
       'latencies_ms': st.lists(st.sampled_from([0, 0, 1, 1, 3]), min_size=1, max_size=5),
       'with_balancer': st.booleans(),
-      'ops': sized_list(weighted(*pairs), 0, 50),
+      'ops': sized_list(weighted(*pairs), 0, 50 if tier == 'quick' else 140),
   })
 
 
